@@ -247,10 +247,10 @@ var pipeTagMenu = [][]PTag{
 	{{"gengo:recx", []string{""}}},
 	{{"gengo:recx", []string{"false"}}},
 	{{"gengo:rec2", []string{""}}},
-	{{"gengo:rec", []string{"fal", "se"}}},              // repeated key: values joined give "false"
+	{{"gengo:rec", []string{"fal", "se"}}},                               // repeated key: values joined give "false"
 	{{"gengo:rec", []string{"false"}}, {"gengo:rec:sub", []string{"x"}}}, // the plain tag decides by itself
 	{{"gengo:recx:opt", []string{"1"}}, {"other", []string{"v"}}},
-	{{"gengo:re", []string{""}}},                         // a prefix of the name, not the name
+	{{"gengo:re", []string{""}}}, // a prefix of the name, not the name
 	{{"gengo:rec2:a", []string{""}}, {"gengo:rec", []string{""}}},
 	{{"gengo:proto", []string{""}}},
 	{{"gengo:proto", []string{""}}, {"gengo:rec", []string{""}}},
